@@ -282,7 +282,7 @@ func (w *W) c14Enumerate(st *histState, g string, doc []byte) {
 					w.Violation("C14/DeleteElems/"+opdesc, bad+"; "+detail, cs)
 					continue
 				}
-				w.c14After(pj, roots, opdesc, detail, cs, mask%4 == 1)
+				w.c14After(pj, roots, opdesc, detail, cs, mask%4 == 1 || v == 3)
 				w.Count("enumerated_deletions", 1)
 				w.Nontrivial(gen.Hash64(doc, []byte(fmt.Sprint(l, mask, v))))
 			}
